@@ -74,6 +74,7 @@ def h_jsep(ctx, depth, media, pre="none"):
         model = {"a": "stable", "b": "stable"}
         pending_offer_from = {"a": None, "b": None}  # ghost: text of the offer each peer is answering / awaiting an answer for
         log = []
+        closing = []
         if pre == "round":
             # scripted prefix: one completed offer/answer round a -> b; exploration starts from there
             # (the descriptions of that round stay available as stale arguments)
@@ -89,7 +90,7 @@ def h_jsep(ctx, depth, media, pre="none"):
             who = ctx.choice("who%d" % step, ["a", "b"])
             other = "b" if who == "a" else "a"
             p = pcs[who]
-            calls = ["createOffer", "createAnswer", "setLocal-implicit", "close"]
+            calls = ["createOffer", "createAnswer", "setLocal-implicit", "close", "close-begin"]
             if "offer" in made[who]:
                 calls.append("setLocal-offer")
             if "answer" in made[who]:
@@ -165,6 +166,12 @@ def h_jsep(ctx, depth, media, pre="none"):
                     run(p.setRemoteDescription(RTCSessionDescription(sdp=text, type=typ)))
                     rd = p.remoteDescription
                     ctx.check(rd is not None and rd.type == typ and rd.sdp.count("\nm=") == text.count("\nm="), "remoteDescription-is-the-description-just-set", "%s in %s -> %r" % (call, state, None if rd is None else rd.type))
+                elif call == "close-begin":
+                    # close() started but not awaited: it is suspended at its first await while the
+                    # following calls are made; the connection must count as closed from here on
+                    nxt = "closed"
+                    closing.append(loop.create_task(p.close()))
+                    run(asyncio.sleep(0))
                 else:
                     nxt = "closed"
                     run(p.close())
@@ -195,6 +202,11 @@ def h_jsep(ctx, depth, media, pre="none"):
             if state == "closed":
                 ctx.check(post[0] == "closed", "closed-is-absorbing")
             log.append((who, call, defect, None if exc is None else type(exc).__name__))
+        for t in closing:
+            run(t)
+        for who in ("a", "b"):
+            if model[who] == "closed":
+                ctx.check(pcs[who].signalingState == "closed", "closed-is-absorbing", "after the pending close() completed")
         ctx.observe("log", log)
         ctx.observe("states", [pcs["a"].signalingState, pcs["b"].signalingState])
     finally:
@@ -229,7 +241,7 @@ HARNESSES = {
         lambda tier: [{"depth": d, "media": m} for m in ("data", "both") for d in ((2, 3) if tier == "quick" else (2, 3, 4))]
         + [{"depth": d, "media": "both", "pre": "round"} for d in ((2,) if tier == "quick" else (2, 3))],
         style="BMC over API call sequences (real objects, real event loop)",
-        bounds="every sequence of 2..3 (quick) / 2..4 calls over {createOffer, createAnswer, setLocal(offer|answer|implicit), setRemote(offer|answer|defective with 7 defect kinds), close} applied to either peer of a pair (offerer with a data channel, or data channel + audio transceiver), from the initial state and (2 / 2..3 calls) from the state after one completed offer/answer round",
+        bounds="every sequence of 2..3 (quick) / 2..4 calls over {createOffer, createAnswer, setLocal(offer|answer|implicit), setRemote(offer|answer|defective with 7 defect kinds), close, close started but not yet awaited} applied to either peer of a pair (offerer with a data channel, or data channel + audio transceiver), from the initial state and (2 / 2..3 calls) from the state after one completed offer/answer round",
         encoded=ENC,
         stubs=["none: real RTCPeerConnection objects, aioice gathers on local interfaces; background connection tasks are cancelled at the end of every path"],
         outside=["pranswer / rollback", "sequences longer than 4 calls", "symbolic SDP content (C09)"],
